@@ -442,7 +442,7 @@ fn check_is_valid_implementation(
 
         // field must return a type which is equal to or a sub-type of (covariant) the
         // return type of implementedField field’s return type
-        if !impl_field.ty().is_subtype(&field.ty) {
+        if !field.ty.is_subtype(impl_field.ty()) {
             return Err(format!(
                 "Field \"{}.{}\" is not sub-type of \"{}.{}\"",
                 implementing_type.name(),
